@@ -295,6 +295,17 @@ def run(repo, rep):
     from . import common
     common.identity_flag_rule(repo, rep, 'geodepy.angles')
     common.ctor_sign_table(repo, rep)
+    # negation and absolute value on a lattice of DMS / DDM objects (zero degrees, whole minutes, a minutes field of 60)
+    from . import c08 as _c08
+    _c08.method_value_table(repo, rep)
+    # multiplication, division and modulo take "a number": not only the two builtin number types (numpy integers, 32-bit floats, Fractions)
+    ops_ = []
+    for cn_ in common.ANGLE_CLASSES:
+        cls_ = repo.module('geodepy.angles').classes.get(cn_)
+        for mn_ in ('__mul__', '__rmul__', '__truediv__', '__mod__', '__floordiv__'):
+            if cls_ is not None and mn_ in cls_.methods:
+                ops_.append(('geodepy.angles', '%s.%s' % (cn_, mn_)))
+    common.numeric_type_rule(repo, rep, ops_)
 
 
 def controls(repo):
